@@ -62,7 +62,18 @@ SubProblems(e) ==
                      \cup Msg(run.bits <= V \/ run.kind = "constant", "run " \o ToString(k) \o ": larger than verbatim")
                 : k \in 1..Len(e.runs) }
 
-Problems(e) == IF e.ev = "stereo" THEN StereoProblems(e) ELSE SubProblems(e)
+\* "ladder": runs[1..5] = [j, kind, order, bits] for maximum fixed orders j = 0..4 (selection by bit count, no
+\* constant / LPC candidates): the results must obey the ladder law of EncoderChoice
+LadderProblems(e) ==
+  LET V == VerbBits(e.n, e.bps)
+      r == [j \in 0..4 |-> LET run == e.runs[j + 1] IN [kind |-> run.kind, order |-> run.order, bits |-> run.bits]]
+  IN Msg(Len(e.runs) = 5 /\ \A j \in 0..4 : e.runs[j + 1].j = j, "5 runs expected")
+     \cup Msg(\A j \in 0..4 : r[j].kind \in {"fixed", "verbatim"}, "a run emits neither a fixed nor a verbatim subframe")
+     \cup Msg(e.n >= MinPredict \/ \A j \in 0..4 : r[j].kind = "verbatim", "prediction on a block shorter than 64 samples")
+     \cup Msg(LadderOk(r, V), "results for maximum orders 0..4 " \o ToString([j \in 0..4 |-> <<r[j].kind, r[j].order, r[j].bits>>])
+                              \o " break the ladder law (verbatim size " \o ToString(V) \o ")")
+
+Problems(e) == IF e.ev = "stereo" THEN StereoProblems(e) ELSE IF e.ev = "ladder" THEN LadderProblems(e) ELSE SubProblems(e)
 Join(S) == FoldSet(LAMBDA x, acc : acc \o x \o " ;; ", "", S)
 TInit == i = 1 /\ sizes = [a |-> 0, b |-> 0, c |-> 0, d |-> 0] /\ done = TRUE
 TStep ==
